@@ -61,6 +61,9 @@ CLAIMS = {
     "C09": ("property-based testing (rapid) against a reference model of addressable declarations (addresses from declared steps, body types, extents from the parser AST) plus structural rules on the collected tree",
             "Generated schemas with every addressing form and generated configurations; completeness (each addressable declaration of the effective schema yields its target with the modelled address / scope / type / range / definition range), soundness (each collected target is explained by an addressable declaration and carries its address; nothing for unknown items) and structure (nested address = parent + one step, list indexes in source order, own extents).",
             "4/C09", TRUST + " One known finding (D21, first element of a block group) is listed in known_findings.json; types of expression-typed attributes are only modelled for plain literals."),
+    "C11": ("property-based testing (rapid) over Terraform-like worlds with resolving references; independent matching predicate (necessary / sufficient conditions) and the go-to-definition / find-references inverse relation",
+            "For every collected origin, go-to-definition is judged sound and complete against a matching predicate written from the statement (address equality / dynamic prefix / block-local containment / scope and type constraints, target path), and find-references at each reported definition must list the origin; find-references results must themselves be collected origins pointing into the queried path that denote a declaration at the position.",
+            "4/C11", TRUST + " The sets of targets and origins are the collectors' own output (their exactness is C09/C10)."),
 }
 
 def main():
